@@ -55,9 +55,10 @@ let () =
   try
     while true do
       let l = input_line stdin in
-      if String.length l = 0 || l.[0] = '#' then print_endline l
+      if String.length l = 0 || l.[0] = '#' then (incr Hist.lineno; print_endline l)
       else begin
-        let (call, _) = split_line l in
+        let (call, ires) = split_line l in
+        Hist.impl_res := ires; Hist.cur_call := call; incr Hist.lineno;
         match String.split_on_char ' ' call with
         | cmd :: args ->
           let r = (try run_cmd cmd args with Failure m -> "DRIVER-ERROR " ^ m) in
